@@ -10,6 +10,7 @@ R19.2  sibling call sites agree: path-level and operation-level parameters are p
 R19.3  response selection does not depend on the order of the `responses` mapping  [= R5.1 normal form]
 R19.12 the discriminator collector rewrites a property slot of the (shared) variant schemas while walking the unions in registry order: what it reads
        from that slot is kept per variant before the slot is overwritten, so a variant of two unions contributes its value to both
+R19.14 the by-name lookup that binds a cycle placeholder to its target is not refused on account of the target's kind (named arrays / unions in cycles)  [= R2.11]
 R19.13 an allOf merge that met a base still being parsed is completed afterwards (inherited fields do not depend on declaration order)              [= R2.22]
 R19.10 sibling inline property schemas get distinct invented names: a name without the parent prefix only under a test of the sibling keys
 R19.11 names made up for inline schemas are tested against the declared schema names (no order-dependent merge with a declared schema)       [= R2.17]
@@ -89,6 +90,11 @@ def run(repo: Repo, rep: Report, tier: str) -> None:
     from rules.c02 import rule_all_of_merge_is_completed
 
     rule_all_of_merge_is_completed(repo, rep, "R19.13")
+    # R19.14: a cycle placeholder (always `type="object"`) is bound to its target by the by-name lookup whatever kind the target has; which schema of a
+    # cycle becomes the placeholder depends on declaration / property order                                                        [= R2.11]
+    from rules.c02 import rule_name_fallback_respects_kind
+
+    rule_name_fallback_respects_kind(repo, rep, "R19.14")
     strict = _strict_params(repo)
     rep.count("R19.1:type_strict_parser_parameters", {k: sorted(v) for k, v in strict.items()})
     # ---------------------------------------------------------------- R19.1
